@@ -813,6 +813,10 @@ def _apply_bound(E, c, st, env, module, where):
         if kwname is not None and not isinstance(mods, dict) and kwname.arg in mods:
             # the callee's own **kwargs dict is created by the call and invisible to the caller: nothing to havoc
             mods = [m for m in mods if m != kwname.arg]
+        if c.sets and not isinstance(mods, dict):
+            # a location whose exact new value is given by `sets` needs no havoc (and its `sets` expression may then read
+            # the value the location has at the call)
+            mods = [m for m in mods if m not in c.sets]
         _havoc_paths(E, st, mods)
     for path, expr in c.sets.items():
         v = eval_single(E, expr, st)
@@ -986,7 +990,7 @@ def _path_base_is_none(E, st, path):
     for k in range(1, len(parts)):
         try:
             r = list(E.ev(ast.parse('.'.join(parts[:k]), mode='eval').body, st.fork(), []))
-        except Unsupported:
+        except (Unsupported, SyntaxError):      # (a prefix cut inside a call expression such as f(self.x).y is not a path)
             return False
         if len(r) == 1 and r[0][1] is None:
             return True
@@ -1058,5 +1062,8 @@ def _store_path(E, st, path, v):
     if '.' not in path:
         raise Unsupported('sets target %s' % path)
     ref, fld = _eval_path_base(E, st, path)
+    cur = st.heap[ref.oid].fields.get(fld, _MISSING)
+    if isinstance(v, Ref) and isinstance(cur, Ref) and cur.oid == v.oid:
+        return          # the location already holds this very object: nothing is written
     st.heap[ref.oid].fields[fld] = v
     st.writes.append((ref.oid, fld))
